@@ -16,7 +16,8 @@ from mc.par import Result
 LEVEL = "model_checking"
 
 NOGT = "<nogt>"
-KINDS = [".", "./.", "0/.", "./1", "0", "1", "0/1", "1/0", "1|0", "0|1|1", "1/0/0", "0|.|1", NOGT, "0|1:PS", "0/1:HP:PQ"]
+NOGT_PS = "<nogt>:PS:PQ"  # no genotype, but phase-set and quality values (in a GT-less record if no other sample has a GT)
+KINDS = [".", "./.", "0/.", "./1", "0", "1", "0/1", "1/0", "1|0", "0|1|1", "1/0/0", "0|.|1", NOGT, "0|1:PS", "0/1:HP:PQ", NOGT_PS, ".|1"]
 DIPLOID = {"./.", "0/.", "./1", "0/1", "1/0", "1|0", "0|1:PS", "0/1:HP:PQ"}
 POSITIONS = [60, 100, 140]
 
@@ -45,19 +46,24 @@ def base_text(kinds_per_record, nsamples, header_variant):
         ref = seq[pos]
         alt = synth.other_base(ref)
         keys = []
-        if any(k != NOGT for k in rec):
+        if any(k not in (NOGT, NOGT_PS) for k in rec):
             keys.append("GT")
         keys.append("DP")
-        if any(k == "0|1:PS" for k in rec):
+        if any(k in ("0|1:PS", NOGT_PS) for k in rec):
             keys.append("PS")
         if any(k == "0/1:HP:PQ" for k in rec):
-            keys += ["HP", "PQ"]
+            keys += ["HP"]
+        if any(k in ("0/1:HP:PQ", NOGT_PS) for k in rec):
+            keys += ["PQ"]
         calls = []
         for k in rec:
             c = {"DP": str(10 + ri)}
-            if k == NOGT:
+            if k in (NOGT, NOGT_PS):
                 if "GT" in keys:
                     c["GT"] = "."
+                if k == NOGT_PS:
+                    c["PS"] = "61"
+                    c["PQ"] = "11.5"
             elif k == "0|1:PS":
                 c["GT"] = "0|1"
                 c["PS"] = "61"
@@ -79,7 +85,7 @@ def bases(tier):
             for hv in ("declared", "phasing") if n <= 2 or T else ("declared",):
                 yield ([(k,) for k in seq], 1, hv)
     for k in KINDS:
-        if k not in ("0|1:PS", "0/1:HP:PQ"):
+        if k not in ("0|1:PS", "0/1:HP:PQ", NOGT_PS):
             yield ([(k,)], 1, "undeclared")
     # two samples, mixed ploidy per call
     for a, b in itertools.product(KINDS, repeat=2):
@@ -191,7 +197,7 @@ def run_base(base):
 
     def V(clause, detail, hist):
         # signature: which kind of genotype makes it fail
-        feats = sorted({("nogt" if k == NOGT else "haploid" if k in ("0", "1", ".") else "partial-polyploid" if k == "0|.|1" else "other") for rec in kinds for k in rec})
+        feats = sorted({("nogt" if k in (NOGT, NOGT_PS) else "haploid" if k in ("0", "1", ".") else "partial-polyploid" if k == "0|.|1" else "other") for rec in kinds for k in rec})
         sig = "c13:" + clause
         if clause == "unphase-fails":
             sig += ":" + detail.split(":")[0]
